@@ -3,6 +3,7 @@ pub mod c02;
 pub mod c03;
 pub mod c04;
 pub mod c05;
+pub mod c06;
 pub mod c07;
 pub mod c08;
 pub mod c09;
@@ -13,6 +14,7 @@ pub mod c13;
 pub mod c14;
 pub mod c15;
 pub mod c16;
+pub mod c17;
 
 use crate::report::CaseOut;
 
@@ -23,6 +25,7 @@ pub fn plan(prop: &str, tier: &str) -> Option<u64> {
         "C03" => c03::plan(tier),
         "C04" => c04::plan(tier),
         "C05" => c05::plan(tier),
+        "C06" => c06::plan(tier),
         "C07" => c07::plan(tier),
         "C08" => c08::plan(tier),
         "C09" => c09::plan(tier),
@@ -33,6 +36,7 @@ pub fn plan(prop: &str, tier: &str) -> Option<u64> {
         "C14" => c14::plan(tier),
         "C15" => c15::plan(tier),
         "C16" => c16::plan(tier),
+        "C17" => c17::plan(tier),
         _ => return None,
     })
 }
@@ -44,6 +48,7 @@ pub fn run_case(prop: &str, tier: &str, seed: u64, idx: u64) -> CaseOut {
         "C03" => c03::run_case(tier, seed, idx),
         "C04" => c04::run_case(tier, seed, idx),
         "C05" => c05::run_case(tier, seed, idx),
+        "C06" => c06::run_case(tier, seed, idx),
         "C07" => c07::run_case(tier, seed, idx),
         "C08" => c08::run_case(tier, seed, idx),
         "C09" => c09::run_case(tier, seed, idx),
@@ -54,6 +59,7 @@ pub fn run_case(prop: &str, tier: &str, seed: u64, idx: u64) -> CaseOut {
         "C14" => c14::run_case(tier, seed, idx),
         "C15" => c15::run_case(tier, seed, idx),
         "C16" => c16::run_case(tier, seed, idx),
+        "C17" => c17::run_case(tier, seed, idx),
         _ => panic!("unknown property {prop}"),
     }
 }
